@@ -3,8 +3,10 @@ package remote
 import (
 	"bytes"
 	"errors"
+	"slices"
 
 	"github.com/NethermindEth/juno/db"
+	"github.com/NethermindEth/juno/db/dbutils"
 	"github.com/NethermindEth/juno/grpc/gen"
 	"github.com/NethermindEth/juno/utils/log"
 )
@@ -24,7 +26,7 @@ type transaction struct {
 	logger log.StructuredLogger
 }
 
-func (t *transaction) NewIterator(_ []byte, _ bool) (db.Iterator, error) {
+func (t *transaction) NewIterator(prefix []byte, withUpperBound bool) (db.Iterator, error) {
 	err := t.client.Send(&gen.Cursor{
 		Op: gen.Op_OPEN,
 	})
@@ -37,11 +39,16 @@ func (t *transaction) NewIterator(_ []byte, _ bool) (db.Iterator, error) {
 		return nil, err
 	}
 
-	return &iterator{
-		client:   t.client,
-		cursorID: pair.CursorId,
-		logger:   t.logger,
-	}, nil
+	it := &iterator{
+		client:     t.client,
+		cursorID:   pair.CursorId,
+		logger:     t.logger,
+		lowerBound: slices.Clone(prefix),
+	}
+	if withUpperBound {
+		it.upperBound = dbutils.UpperBound(prefix)
+	}
+	return it, nil
 }
 
 func (t *transaction) Discard() error {
